@@ -427,6 +427,20 @@ fn gen_knots(rng: &mut Rng, n: usize) -> Vec<f64> {
             xs[k] = 0.0;
         }
     }
+    if style == 2 {
+        // the first or the last knot is exactly zero, of either sign (a mirrored grid ends in -0.0)
+        let s = if rng.bool() { xs[0] } else { xs[n - 1] };
+        for x in xs.iter_mut() {
+            *x -= s;
+        }
+        let z = if rng.bool() { 0.0 } else { -0.0 };
+        if xs[0] == 0.0 {
+            xs[0] = z;
+        }
+        if xs[n - 1] == 0.0 {
+            xs[n - 1] = z;
+        }
+    }
     // strictly increasing is the premise
     for i in 1..n {
         if !(xs[i] > xs[i - 1]) {
@@ -478,7 +492,13 @@ fn gen_case(rng: &mut Rng, complex: bool, clamped: bool, n: usize, mode: DataMod
             (ys, (polyval(&q, xs[0]).1, polyval(&q, xs[n - 1]).1))
         }
     };
-    Case { clamped, xs, ys, slopes, tol: rng.log10(-14.0, -6.0), mode, q }
+    // the zero tolerance of the piece polynomials: any non-negative number is admissible
+    let tol = match rng.below(12) {
+        0 => 0.0,
+        1 => 1e-300,
+        _ => rng.log10(-14.0, -6.0),
+    };
+    Case { clamped, xs, ys, slopes, tol, mode, q }
 }
 
 fn construct<N: Fld>(c: &Case) -> Guarded<Result<CubicSpline<N>, String>> {
@@ -558,6 +578,9 @@ fn run_spline<N: Fld>(rep: &mut Report, c: &Case, stage_tag: &str) {
     let n = c.xs.len();
     rep.eval();
     rep.count(&format!("{}/splines", name), 1);
+    if c.tol == 0.0 {
+        rep.count(&format!("{}/splines_with_tolerance_zero", name), 1);
+    }
     let s = match construct::<N>(c) {
         Guarded::Ok(Ok(s)) => s,
         Guarded::Ok(Err(e)) => {
@@ -672,6 +695,19 @@ fn run_spline<N: Fld>(rep: &mut Report, c: &Case, stage_tag: &str) {
                     J::obj().set("x", x).set("derivative", J::fs(&[o.2.re, o.2.im])).set("prescribed", J::fs(&[want.re, want.im])),
                     format!("S'({:e}) = {:e}{:+e}i at the {} end, prescribed slope {:e}{:+e}i (|error| {:e} > {:e})", x, o.2.re, o.2.im, if k == 0 { "left" } else { "right" }, want.re, want.im, e, KD * ud),
                 );
+            }
+        }
+    }
+    // an end knot that is a zero: the zero of the other sign is the same point of the range
+    for k in [0, n - 1] {
+        if c.xs[k] == 0.0 {
+            let x = -c.xs[k];
+            rep.count(&format!("{}/end_knot_zero_evaluated_at_the_other_zero", name), 1);
+            if let Some(o) = obs_at(rep, &mut jd, x) {
+                let i = if k == 0 { 0 } else { np - 1 };
+                jd.against_reference(rep, i, x, &o, "end-knot-zero-of-other-sign");
+            } else {
+                failed = true;
             }
         }
     }
@@ -897,7 +933,7 @@ pub fn meta() -> CheckMeta {
     CheckMeta {
         id: "C16",
         level: "exploration",
-        rule: "cases: spline_free / spline_clamped x f64 / Complex<f64> ordinates, 2..40 strictly increasing knots in [-10,10] (random spacings with ratio up to 50, total length 0.6..20, integer grids, a knot at exactly 0), ordinates arbitrary / sampled from a smooth function / sampled from a cubic (clamped) or a line (free), random end slopes, tolerance 1e-14..1e-6; plus the Err cases. A spline is a distinct non-trivial case when it has >= 4 knots and spacing ratio >= 2 (hash of constructor, field, knots, ordinates)".into(),
+        rule: "cases: spline_free / spline_clamped x f64 / Complex<f64> ordinates, 2..40 strictly increasing knots in [-10,10] (random spacings with ratio up to 50, total length 0.6..20, integer grids, a knot at exactly 0), ordinates arbitrary / sampled from a smooth function / sampled from a cubic (clamped) or a line (free), random end slopes, tolerance 1e-14..1e-6 and the admissible extremes 0 and 1e-300; a first or last knot that is exactly +0.0 or -0.0 (then also evaluated at the zero of the other sign); plus the Err cases. A spline is a distinct non-trivial case when it has >= 4 knots and spacing ratio >= 2 (hash of constructor, field, knots, ordinates)".into(),
         assumptions: vec![
             "reference: moment equations assembled densely and solved by the harness' own partial-pivot LU; it must pass its own C2/end-condition self-check (<= 64 units) before use".into(),
             format!("bounds: value {} unit_v, derivative {} unit_d, second-derivative jumps / free ends {} sum|w| unit_d, reproduction {} (unit + eps Lebesgue-function x data magnitude); units defined at the top of c16.rs (conditioning of the expanded-in-x piece + componentwise forward error of the tridiagonal solve)", KV, KD, KS, KQ),
@@ -954,6 +990,8 @@ pub fn thresholds(ctx: &Ctx, rep: &Report) -> Vec<Threshold> {
         t.push(Threshold { what: format!("{} splines compared with the reference", name), required: ctx.tier.pick(1_200.0, 20_000.0), observed: rep.counter(&format!("{}/splines", name)) as f64 });
         t.push(Threshold { what: format!("{}: observations one ulp left and right of interior knots", name), required: ctx.tier.pick(16_000.0, 300_000.0), observed: (rep.counter(&format!("{}/points_knot-1ulp", name)) + rep.counter(&format!("{}/points_knot+1ulp", name))) as f64 });
         t.push(Threshold { what: format!("{}: interior knots at which the second derivative was compared across the knot", name), required: ctx.tier.pick(8_000.0, 150_000.0), observed: rep.counter(&format!("{}/c2_knots_checked", name)) as f64 });
+        t.push(Threshold { what: format!("{}: end knots that are a zero, evaluated at the zero of the other sign", name), required: ctx.tier.pick(200.0, 1_500.0), observed: rep.counter(&format!("{}/end_knot_zero_evaluated_at_the_other_zero", name)) as f64 });
+        t.push(Threshold { what: format!("{}: splines built with zero tolerance exactly 0", name), required: ctx.tier.pick(200.0, 1_500.0), observed: rep.counter(&format!("{}/splines_with_tolerance_zero", name)) as f64 });
         t.push(Threshold { what: format!("{}: splines through cubic / linear data", name), required: ctx.tier.pick(120.0, 2_000.0), observed: rep.counter(&format!("{}/reproduction_splines", name)) as f64 });
     }
     for name in ["free/f64", "free/complex"] {
